@@ -888,3 +888,68 @@ def engine_contract(seed, dbs):
     return dict(bad=bad, ncalls=len(calls), nhanded=len(handed), done=obs.done, stuck=obs.stuck,
                 template=[k for k in spec["steps"]], seed=seed,
                 timeouts=sum(1 for c in calls if c[2] is None), reused=len(handed) - len(set(handed)))
+
+
+def slow_write_case(dbs, which=0):
+    """Durability of a fresh completion on a journal whose INSERT takes time (a networked database): two tasks are started,
+    one finishes.  wait_for_next_task may hand that completion to the control loop only once its journal row is in the
+    database - a process that stops while the loop acts on it must recover WITH it.  Returns (failure text | None, facts)."""
+    path = dbs.fresh()
+    orig = _crud_mod.SqliteJournalCrud.insert
+    pending_writes = [0]
+
+    async def slow_insert(self, run_id, seq_num, task_key):
+        pending_writes[0] += 1
+        try:
+            await asyncio.sleep(5.0)          # virtual seconds
+            return await orig(self, run_id, seq_num, task_key)
+        finally:
+            pending_writes[0] -= 1
+    out = dict(why=None, facts={})
+
+    async def go():
+        loop = asyncio.get_running_loop()
+        ad = rt.InternalDBOSAdapter(run_id=RUNS[0], engine=None, db_path=path)
+        gates = [asyncio.Event(), asyncio.Event()]
+
+        async def body(i):
+            await gates[i].wait()
+            return i
+        _dbos_ctx._ctx.function_id = 1
+        kids = [KID["a:0"], KID["b:0"]]
+        pend = [named_pending(kids[0], body(0)), named_pending(kids[1], body(1))]
+        call = asyncio.ensure_future(ad.wait_for_next_task([], pend, None))
+        await vloop.settle()
+        gates[which].set()
+        await vloop.settle()
+        handed_early = call.done()
+        rows = [r_ for r_ in dump(path)[0] if r_[0] == 0]
+        out["facts"] = dict(finished=KEYS[kids[which]], returned_before_the_write_landed=handed_early,
+                            journal_rows_then=len(rows), writes_in_flight=pending_writes[0])
+        if handed_early and not any(r_[2] == kids[which] for r_ in rows):
+            out["why"] = ("wait_for_next_task handed the completion of %s to the control loop while its journal row was still being "
+                          "written (%d rows in the database, %d writes in flight): a process stopped now recovers without it and may "
+                          "observe the tasks in another order" % (KEYS[kids[which]], len(rows), pending_writes[0]))
+        for _ in range(4):
+            loop.advance(6.0)
+            await vloop.settle()
+        if not call.done():
+            call.cancel()
+            if out["why"] is None:
+                out["why"] = "wait_for_next_task did not return although the finished task's journal row was written"
+        else:
+            out["facts"]["journal_rows_after"] = len([r_ for r_ in dump(path)[0] if r_[0] == 0])
+        for g in gates:
+            g.set()
+        await vloop.settle()
+
+    _crud_mod.SqliteJournalCrud.insert = slow_insert
+    old_logger = rt.logger
+    rt.logger = _Log()
+    try:
+        vloop.run(go())
+    finally:
+        _crud_mod.SqliteJournalCrud.insert = orig
+        rt.logger = old_logger
+        dbs.drop(path)
+    return out["why"], out["facts"]
